@@ -43,7 +43,9 @@ def shards(tier, seed):
 
 def check(acc, name, infos, ops, named, meta, sample=False):
     nops = sum(len(r) for r in ops)
-    inp = {"name": name, "spec": norm.spec_of(infos, ops, named), "kind": meta.get("kind")}
+    # (all classes of this workload carry user labels / random flow: residual mis-structuring there is K05, as in C02)
+    inp = {"name": name, "spec": norm.spec_of(infos, ops, named), "kind": meta.get("kind"),
+           "unstructured": meta.get("kind") not in ("catalogue", "flat", "handbuilt")}
     wf = well_formed_problem(ops)
     if wf is not None:
         acc.count("skipped_not_well_formed")
